@@ -826,7 +826,7 @@ func (w *World) checkHashChain(l *LState, sched string) {
 		w.harness("%v", err)
 	}
 	keep := l.C
-	l.C = c
+	l.C = w.wrap(l.Name, c)
 	defer func() { l.C = keep }()
 	logs, _, err := paginateAll(w, "ListLogs", initialLogsQuery(), func(q pagedQuery) (*paginate.Cursor[ledger.Log], error) { return l.C.ListLogs(w.Ctx, q) })
 	if err != nil {
